@@ -1,11 +1,9 @@
+import Driver.Common
 import Canopy.Model.Bytes
 import Canopy.Gen.Keys
 /-! Driver for C19/M-key: stateless, one answer per line. -/
 namespace Driver.C19
-open Canopy
-
-def words (line : String) : List String :=
-  (line.splitOn " ").filter (· ≠ "")
+open Canopy Driver
 
 def showSegs (segs : List Bytes) : String :=
   "segs " ++ toString segs.length ++ String.join (segs.map fun s => " " ++ hexOrDash s)
@@ -42,3 +40,5 @@ def step (line : String) : String :=
   | _ => "bad-op"
 
 end Driver.C19
+
+def main : IO Unit := Driver.loopStateless Driver.C19.step
